@@ -3,6 +3,7 @@
 package att
 
 import (
+	"sync"
 	"time"
 
 	epb "github.com/google/gce-tcb-verifier/proto/endorsement"
@@ -56,17 +57,20 @@ func Report(meas []byte) *spb.Report {
 	}
 }
 
-var vcek []byte
+var (
+	vcek     []byte
+	vcekOnce sync.Once
+)
 
-// Vcek returns a test VCEK certificate (go-sev-guest test chain).
+// Vcek returns a test VCEK certificate (go-sev-guest test chain), built once.
 func Vcek() []byte {
-	if vcek == nil {
+	vcekOnce.Do(func() {
 		s, err := sgtest.DefaultTestOnlyCertChain("Milan", fx.T0)
 		if err != nil {
 			panic(err)
 		}
 		vcek = s.Vcek.Raw
-	}
+	})
 	return vcek
 }
 
